@@ -6,12 +6,23 @@
 import ScionTime.Proofs.NtsReply
 import ScionTime.Model.NtsPool
 import ScionTime.Gen.Nts
+import ScionTime.Gen.Server
 namespace ScionTime.C11
 open ScionTime.Nts ScionTime.NtsPool
 
 theorem C11_pin_numStoredCookies : Gen.Nts.numStoredCookies = (numStoredCookies : Int) := by decide
 theorem C11_pin_MaxPacketLen : Gen.Nts.MaxPacketLen = (maxPacketLen : Int) := by decide
 theorem C11_pin_ntpPacketLen : Gen.Nts.ntpPacketLen = (ntpPacketLen : Int) := by decide
+
+set_option maxRecDepth 100000 in
+/-- The listeners' NTS branch is modelled by `serverReply` (and transcribed by the harness, which
+    cannot call the listeners without sockets). Pin: the sequence of calls into net/nts and
+    net/ntske, and the bound of the cookie loop, in `runIPServer` and `runSCIONServer` are the ones
+    the model follows (regenerated from the sources on every run). -/
+theorem C11_pin_ntsBranch :
+    Gen.Server.ntsBranch_runIPServer = "nts.DecodePacket;ntsreq.FirstCookie;encryptedCookie.Decode;provider.Get;encryptedCookie.Decrypt;nts.ProcessRequest;provider.Current;range(len(ntsreq.Cookies)+len(ntsreq.CookiePlaceholders));serverCookie.EncryptWithNonce;encryptedCookie.Encode;nts.NewResponsePacket;nts.EncodePacket" ∧
+    Gen.Server.ntsBranch_runSCIONServer = Gen.Server.ntsBranch_runIPServer := by
+  decide
 
 /-! ### the cookies this project's servers issue are 124 bytes -/
 
